@@ -4,8 +4,15 @@ From Coq Require Import QArith Qminmax.
 From LV Require Import Base.Prelude Model.Bezier Proofs.C11_Extrema.
 Open Scope Q_scope.
 
-(* the square-root oracle assumed for the cubic root finder (behaviour of f64::sqrt in exact arithmetic) *)
-Definition sqrt_ok (sq : Q -> Q) : Prop := forall d, 0 <= d -> 0 <= sq d /\ sq d * sq d == d.
+(* The square-root oracle assumed for the cubic root finder: only at the one discriminant the code
+   passes to sqrt, [sq] must return a square root of it.  (A hypothesis "for every d" would be
+   unsatisfiable over Q - Proofs/C11_SqrtOracle.v proves that - and make the theorems vacuous; the
+   pointwise form is met by every curve whose derivative has a perfect-square discriminant, see the
+   Example below.  Curves with an irrational discriminant root are outside this rational model.) *)
+Definition c_disc (p0 p1 p2 p3 : Q) : Q :=
+  6 * (p2 - 2 * p1 + p0) * (6 * (p2 - 2 * p1 + p0))
+  - 4 * (3 * (p3 + 3 * (p1 - p2) - p0)) * (3 * (p1 - p0)).
+Definition sqrt_ok_at (sq : Q -> Q) (d : Q) : Prop := 0 <= d -> sq d * sq d == d.
 
 (* a chain of parameter ranges from s to e: each starts where the previous ended, strictly increasing *)
 Fixpoint chain (s : Q) (l : list (Q * Q)) (e : Q) : Prop :=
@@ -76,35 +83,38 @@ Theorem C11_cubic_dpoly_is_derivative : forall p0 p1 p2 p3 t h,
      + h * h * h * (p3 - 3 * p2 + 3 * p1 - p0).
 Proof. exact cubic_dpoly_is_derivative. Qed.
 
-Theorem C11_cubic_extrema_sound : forall sq p0 p1 p2 p3 t, sqrt_ok sq ->
+Theorem C11_cubic_extrema_sound : forall sq p0 p1 p2 p3 t, sqrt_ok_at sq (c_disc p0 p1 p2 p3) ->
   In t (c_local_extrema sq p0 p1 p2 p3) -> 0 < t /\ t < 1 /\ c_dpoly p0 p1 p2 p3 t == 0.
-Proof. exact cubic_extrema_sound. Qed.
+Proof. exact cubic_extrema_sound_at. Qed.
 
-Theorem C11_cubic_extrema_complete : forall sq p0 p1 p2 p3 t, sqrt_ok sq ->
+Theorem C11_cubic_extrema_complete : forall sq p0 p1 p2 p3 t, sqrt_ok_at sq (c_disc p0 p1 p2 p3) ->
   0 < t -> t < 1 -> c_dpoly p0 p1 p2 p3 t == 0 ->
   ~ (p3 + 3 * (p1 - p2) - p0 == 0 /\ p2 - 2 * p1 + p0 == 0) ->
   exists t', In t' (c_local_extrema sq p0 p1 p2 p3) /\ t' == t.
-Proof. exact cubic_extrema_complete. Qed.
+Proof. exact cubic_extrema_complete_at. Qed.
 
-Theorem C11_cubic_range_tight : forall sq p0 p1 p2 p3, sqrt_ok sq ->
+Theorem C11_cubic_range_tight : forall sq p0 p1 p2 p3,
   (0 <= c_minimum_t sq p0 p1 p2 p3 /\ c_minimum_t sq p0 p1 p2 p3 <= 1) /\
   (0 <= c_maximum_t sq p0 p1 p2 p3 /\ c_maximum_t sq p0 p1 p2 p3 <= 1).
-Proof. exact cubic_range_tight. Qed.
+Proof. intros sq p0 p1 p2 p3. exact (cubic_range_tight_any sq p0 p1 p2 p3). Qed.
 
-Theorem C11_cubic_range_contains : forall sq p0 p1 p2 p3 t, sqrt_ok sq -> 0 <= t -> t <= 1 ->
+Theorem C11_cubic_range_contains : forall sq p0 p1 p2 p3 t, sqrt_ok_at sq (c_disc p0 p1 p2 p3) ->
+  0 <= t -> t <= 1 ->
   fst (c_bounding_range sq p0 p1 p2 p3) <= c_coord p0 p1 p2 p3 t /\
   c_coord p0 p1 p2 p3 t <= snd (c_bounding_range sq p0 p1 p2 p3).
-Proof. exact cubic_range_contains. Qed.
+Proof. exact cubic_range_contains_at. Qed.
 
 Theorem C11_cubic_fast_contains : forall p0 p1 p2 p3 t, 0 <= t -> t <= 1 ->
   fst (c_fast_bounding_range p0 p1 p2 p3) <= c_coord p0 p1 p2 p3 t /\
   c_coord p0 p1 p2 p3 t <= snd (c_fast_bounding_range p0 p1 p2 p3).
 Proof. exact cubic_fast_contains. Qed.
 
-Example C11_sqrt_ok_satisfiable_on_squares :
-  (* the hypothesis is met on the inputs the correspondence uses (perfect-square discriminants) *)
-  (fun d : Q => 12) 144 * (fun d : Q => 12) 144 == 144.
-Proof. reflexivity. Qed.
+(* non-vacuity: a concrete cubic coordinate (derivative roots 1/4 and 3/4) meets the hypothesis with the
+   oracle returning the exact root of its discriminant, and the model then reports both extrema *)
+Example C11_sqrt_hypothesis_met :
+  sqrt_ok_at (fun _ => 72) (c_disc 0 9 (-(6)) 3) /\
+  Forall2 Qeq (c_local_extrema (fun _ => 72) 0 9 (-(6)) 3) [1 # 4; 3 # 4].
+Proof. split; [intros _; vm_compute; reflexivity | vm_compute; repeat constructor]. Qed.
 
 Print Assumptions C11_quad_extremum_sound.
 Print Assumptions C11_quad_extremum_complete.
